@@ -128,6 +128,8 @@ def run(repo, chk):
 
     from .shared import routing_obligations
     routing_obligations(repo, chk, "R04.4", "offer")
+    from .shared import activation_integrity_obligations
+    activation_integrity_obligations(repo, chk, "R04.4", "overriding probes (an override whose function was untooled by someone else's refused activation silently stops substituting)")
     from .shared import call_aggregates
     hv_, ok_hv_ = call_aggregates(repo, "hasval")
     chk.ob("R04.4", "selector.Call.hasval:an-override-declines-under-conditions-on-nested-calls-too", ok_hv_, hv_.where,
